@@ -9,6 +9,7 @@ every op every node ever created is probed.
 import gc
 
 from ..core import Violation, HarnessError, stream, sut
+from ..core import deep
 from .. import graph as G
 from .c08 import expectation
 
@@ -107,9 +108,9 @@ class Prop:
     def gen(self, seed):
         c = stream(seed, "config")
         r = stream(seed, "ops")
-        nlinks = c.choice([1, 1, 2, 2, 3])
+        nlinks = deep(c, [1, 1, 2, 2, 3], [4])
         steps = [[c.choice(LINKS), c.random() < 0.7] for _ in range(nlinks)]
-        nops = c.choice([4, 8, 12, 18, 24, 30])
+        nops = deep(c, [4, 8, 12, 18, 24, 30], [45, 60])
         arity = c.choice([0, 3, 4, 4])
         remove_at = c.choice([None, None, None, c.randrange(nops + 1)])
         eq_nodes = c.random() < 0.4
